@@ -300,6 +300,13 @@ Proof.
     destruct H as [<-|[]]; reflexivity.
 Qed.
 
+Lemma updates_act m ws ops id v a :
+  In (EUpd id v a) (updates_of m ws ops) -> a = match get2 m ws id with Some r => r_act r | None => true end.
+Proof.
+  unfold updates_of. rewrite in_flat_map. intros (o & _ & H). destruct o; cbn in H; try tauto;
+    destruct H as [E|[]]; inversion E; subst; reflexivity.
+Qed.
+
 Lemma valid_cmd_parts s c : valid_cmd s c = true ->
   c_bad c = false /\ c_ops c <> [] /\ NoDup (raws_of (c_ops c)) /\ NoDup (upd_ids (c_ops c))
   /\ forall id, In id (upd_ids (c_ops c)) -> get2 (recs s) (c_ws c) id <> None.
@@ -330,7 +337,11 @@ Proof.
     + destruct (creates_new _ _ _ Hin) as (id & v & -> & Hle). exact Hle.
     + pose proof (updates_not_new _ _ _ _ Hin) as Hn.
       assert (Hid : In (cud_id x) (upd_ids (c_ops c))) by (rewrite <- (updates_ids (recs s) (c_ws c)); apply in_map; exact Hin).
-      destruct x; cbn in Hn; try discriminate; rewrite <- Hr; apply Hex; exact Hid.
+      destruct x; cbn in Hn; try discriminate.
+      * cbn [cud_id] in Hid. pose proof (updates_act _ _ _ _ _ _ Hin) as Ha. rewrite <- Hr.
+        specialize (Hex id Hid). destruct (get2 (recs s) (c_ws c) id) as [r|]; [|congruence].
+        exists r. split; [reflexivity | symmetry; exact Ha].
+      * rewrite <- Hr; apply Hex; exact Hid.
 Qed.
 
 Lemma new_ids_event ops n m ws :
@@ -879,4 +890,34 @@ Proof.
   split.
   - exists w, ids. rewrite last_opt_snoc. cbn. rewrite Hr. reflexivity.
   - eapply serving_state_consistent_proved; [exact H' | exact Hm].
+Qed.
+
+(* ---------- the rows of the log: updates address existing records and keep sys.IsActive ---------- *)
+
+Lemma wf_app_l a b : wf (a ++ b) -> wf a.
+Proof.
+  induction b as [|x b' IH] using rev_ind; intros H.
+  - rewrite app_nil_r in H. exact H.
+  - rewrite app_assoc in H. apply wf_inv in H. apply IH. apply H.
+Qed.
+
+Lemma acts_ok_wf : forall suf pre, wf (pre ++ suf) -> acts_ok (recs_of pre) suf = true.
+Proof.
+  induction suf as [|e r IH]; intros pre H; [reflexivity|].
+  replace (pre ++ e :: r) with ((pre ++ [e]) ++ r) in H by (rewrite <- app_assoc; reflexivity).
+  pose proof (wf_app_l _ _ H) as H1. apply wf_inv in H1. destruct H1 as [_ (_ & _ & Hc)].
+  cbn [acts_ok]. apply andb_true_intro. split.
+  - apply forallb_forall. intros c Hin. specialize (Hc c Hin). destruct c.
+    + reflexivity.
+    + destruct Hc as (x & -> & <-). apply Bool.eqb_reflx.
+    + cbn [cud_id] in Hc. destruct (get2 (recs_of pre) (e_ws e) id); [reflexivity | congruence].
+  - rewrite <- recs_of_snoc. apply IH. exact H.
+Qed.
+
+Theorem log_rows_well_formed_proved fx tl steps st outs :
+  run fx tl 1 steps state0 = (st, outs) -> acts_ok [] (events st) = true.
+Proof.
+  intros H. destruct (run_reach fx tl steps st outs H) as (es & HI & _).
+  rewrite (InvW_events es st HI). destruct HI as (_ & Hw & _).
+  apply (acts_ok_wf es []). exact Hw.
 Qed.
